@@ -7,3 +7,4 @@ import WowVerif.Props.C14
 #print axioms Wv.Adt.mcnk_offset_points_at_named
 #print axioms Wv.Adt.water_offsets_tile
 #print axioms Wv.Adt.water_entry_fields
+#print axioms Wv.Adt.water_size_is_content
